@@ -449,6 +449,22 @@ class Interp:
                         except (_Break, _Continue):
                             pass
                         return
+                if self.array_rows and isinstance(itv, Sym):
+                    # (opt-in) for (a, b) in zip(A, B) / for x in A over arrays of unknown length: the rows A[k], B[k] of one fresh position k
+                    zc = call_of(itv, 'zip')
+                    srcs = list(zc[0]) if zc is not None and not zc[1] else ([itv] if not (itv.struct and itv.struct[0] == 'comp') and call_of(itv, 'enumerate') is None and
+                                                                             call_of(itv, 'range') is None and call_of(itv, 'ndindex') is None and not itv.attrs.get('__item_length__') else None)
+                    if srcs and all(isinstance(a_, Sym) for a_ in srcs) and (zc is None or (isinstance(st.target, ast.Tuple) and len(st.target.elts) == len(srcs))):
+                        self._row_counter = getattr(self, '_row_counter', 0) + 1
+                        idx = Sym('_k%d' % self._row_counter)
+                        rows = [self.index(a_, idx, None) for a_ in srcs]
+                        self.path.events.append(('loop', 'rows of %s' % ', '.join(show(a_) for a_ in srcs), idx.text, Sym('rows(%s)' % show(srcs[0]), struct=('call', 'rows', tuple(srcs), {}))))
+                        self.assign(st.target, tuple(rows) if zc is not None else rows[0], env)
+                        try:
+                            self.block(st.body, env)
+                        except (_Break, _Continue):
+                            pass
+                        return
                 self.path.events.append(('loop', show(itv), ast.unparse(st.target), itv))
                 item_len = itv.attrs.get('__item_length__') if isinstance(itv, Sym) else None
                 for nm in ast.walk(st.target):
@@ -1332,7 +1348,7 @@ def _b_sum(it, args, kw):
     vals = it.iterate(args[0], None) if not isinstance(args[0], Sym) or args[0].length is not None else None
     if vals is not None and is_concrete(vals):
         return sum(vals, *args[1:])
-    return Sym('sum(%s)' % show(args[0]))
+    return Sym('sum(%s)' % show(args[0]), struct=('call', 'sum', tuple(args), {}))
 
 
 def _b_next(it, args, kw):
